@@ -997,3 +997,12 @@ v("C15", "and-padding-drops-rank-id", "fire", I,
 v("C15", "getRange-drops-rank-id", "fire", F,
   "                            rank_id=self.getRankAttrs().getId(), start_pos=start_pos)",
   "                            start_pos=start_pos)", "C15.R7")
+
+
+# D14 (fix: getShape ticking) and seed C15-e
+v("C15", "getShape-default-traversal", "fire", F,
+  "                for _, p in self.__iter__(tick=False):\n                    if not isinstance(p, Fiber):",
+  "                for _, p in self:\n                    if not isinstance(p, Fiber):", "C15.R8")
+v("C15", "silent-len-lazy-loop-spelled-sum", "silent", F,
+  "            len_ = 0\n            for _ in self.iterOccupancy(tick=False):\n                len_ += 1\n            return len_",
+  "            return sum(1 for _ in self.iterOccupancy(tick=False))", None)
